@@ -143,6 +143,11 @@ impl VectorSelector {
         candidates.sort_by_cached_key(|utxo| utxo.assets.distance(target, &classes));
         candidates.reverse();
 
+        #[cfg(tx3_verif)]
+        crate::verif::push(crate::verif::Event::Sorted(
+            candidates.iter().map(|x| x.r#ref.clone()).collect(),
+        ));
+
         candidates
     }
 }
